@@ -254,8 +254,8 @@ func cmdCheck(args []string) {
 	var sampleOut []interface{}
 	if nb != nil {
 		for _, s := range samples {
-			if len(s.Sched) > 0 {
-				continue // schedules are not replayable natively without hooks; data-only paths are
+			if len(s.Sched) > 0 && len(s.Gate) == 0 {
+				continue // a schedule without gate information is not replayable natively; data-only and gated paths are
 			}
 			res := nb.run(s, "")
 			same := res.Done && len(res.Failures) == 0 && equalStrs(res.Obs, s.Obs)
@@ -282,7 +282,11 @@ func cmdCheck(args []string) {
 		confirmed := false
 		var dir string
 		for k, v := range vs {
-			if k >= 3 || v.Replay == nil {
+			maxTry := 3
+			if v.Replay != nil && len(v.Replay.Sched) > 0 {
+				maxTry = 8 // schedule-dependent: several explored schedules lead to the same violation, some replay more directly
+			}
+			if k >= maxTry || v.Replay == nil {
 				break
 			}
 			dir = filepath.Join(replayRoot, fmt.Sprintf("%s-%d", v.Harness, len(known)+nViol))
